@@ -88,7 +88,18 @@ def config_cases(tier):
         main = [c for c in main if c['precdiff'] == 'inf']
     out += main
     out += [c for c in pp.shape_product(tier) if (not quick) or (c['it'] == 'euler')]
-    out += pp.options_product(tier) + pp.floor_product(tier)
+    out += pp.options_product(tier)
+    # the floor product of C01 with the floor BELOW the equilibrium matrix composition (1e-5): a floor above it (C01 uses 0.005, half the
+    # alloy content, to make the matrix cross it) keeps the matrix supersaturated for ever - after the first clamp the precipitates grow
+    # until the volume-fraction cap, with ~1e-4 s steps; such a run is no admissible configuration for the well-formedness clauses
+    seen_floor = set()
+    for c in pp.floor_product(tier):
+        c = dict(c)
+        c['constraints'] = dict(c['constraints'], minComposition=1e-5)
+        key = core.canon_json(c)
+        if key not in seen_floor:
+            seen_floor.add(key)
+            out.append(c)
     # (2) constraint toggles x solver fractions x temperatures inside / on / outside the two-phase region
     levels = {
         'system': ['bin', 'tern'],
